@@ -874,5 +874,6 @@ def run(c):
         M.stream_param(c, c.n(80, 3000), tmp)
         M.stream_ids(c, c.n(80, 3000), tmp)
         M.corpus(c, tmp)
+        W.probes(c, tmp)  # F57, F58, F59 (known): write() of an object read from a file
     finally:
         shutil.rmtree(tmp, ignore_errors=True)
